@@ -33,17 +33,25 @@ class CommitteeCalc(Calculator):
     def __init__(self, **kw):
         super().__init__(**kw)
         self.nvar = None  # None: publish no committee data; scalar or (N,3) array of multiples of REF
+        self.ref = REF    # the reference variance the multiples refer to (a large one needs a larger committee, below)
 
     def committee(self, natoms):
         if self.nvar is None:
             return {}
         nv = np.broadcast_to(np.asarray(self.nvar, float), (natoms, 3))
         base = np.ones((natoms, 3))
-        x = nv * REF  # std / mean(|.|) = x / 1
-        forces_comm = np.stack([base - x, base + x])
-        # energy scheme: std(energies) / natoms = n * REF  (scalar n only)
+        x = nv * self.ref  # std / mean(|.|) = x / 1
         n0 = float(np.asarray(self.nvar, float).ravel()[0])
-        energies = np.array([-n0 * REF * natoms, n0 * REF * natoms]) + 5.0
+        if self.ref != REF and np.any(x > 0.9):
+            # a two-member committee cannot have std / mean|.| above 1: m = c^2 + 1 members, one of them 1 and the others 0,
+            # have the coefficient sqrt(m - 1) = c (integer c = n0 * ref, scalar variance only)
+            c = int(round(n0 * self.ref))
+            forces_comm = np.zeros((c * c + 1, natoms, 3))
+            forces_comm[0] = 1.0
+        else:
+            forces_comm = np.stack([base - x, base + x])
+        # energy scheme: std(energies) / natoms = n * ref  (scalar n only)
+        energies = np.array([-n0 * self.ref * natoms, n0 * self.ref * natoms]) + 5.0
         return {"forces_comm": forces_comm, "energies": energies}
 
     def calculate(self, atoms=None, properties=("energy",), system_changes=all_changes):
@@ -58,14 +66,15 @@ class CommitteeCalc(Calculator):
         self.results.update(self.committee(len(atoms)))
 
 
-def make(scheme, fn, lo, hi):
+def make(scheme, fn, lo, hi, ref=REF):
     from quansino.mc.fbmc import AdaptiveForceBias
 
     atoms = Atoms("Cu3", positions=[[0, 0, 0], [2.5, 0, 0], [0, 2.5, 0]], cell=[9, 9, 9], pbc=True)
     atoms.calc = CommitteeCalc()
+    atoms.calc.ref = ref
     with warnings.catch_warnings():
         warnings.simplefilter("ignore")
-        afb = AdaptiveForceBias(atoms, min_delta=lo * UNIT, max_delta=hi * UNIT, temperature=300.0, scheme=scheme, reference_variance=REF, update_function=fn, seed=11)
+        afb = AdaptiveForceBias(atoms, min_delta=lo * UNIT, max_delta=hi * UNIT, temperature=300.0, scheme=scheme, reference_variance=ref, update_function=fn, seed=11)
     atoms.get_potential_energy()
     return afb
 
@@ -103,13 +112,15 @@ def run(tier: str) -> int:
         c = row["c"]
         f = Fraction(c["fnum"], c["fden"])
         for scheme in ("forces", "energy"):
-            for lo, hi in ((1, 3), (2, 2), (0, 5)):
-                afb = make(scheme, c["fn"], lo, hi)
+            for lo, hi, ref in ((1, 3, REF), (2, 2, REF), (0, 5, REF), (1, 3, 1.0), (0, 5, 2.0)):
+                if ref != REF and c["n"] > 12:
+                    continue  # (committee of n^2 ref^2 + 1 members)
+                afb = make(scheme, c["fn"], lo, hi, ref)
                 afb.atoms.calc.nvar = c["n"]
                 afb.atoms.calc.publish(afb.atoms)
                 want = float((Fraction(lo) + (hi - lo) * f) * Fraction(1, 100))
                 nrep += 1
-                rep.count(("curve", c["fn"], c["n"], scheme, lo, hi))
+                rep.count(("curve", c["fn"], c["n"], scheme, lo, hi, ref))
                 try:
                     afb.update_delta()
                 except Exception as ex:  # noqa: BLE001
@@ -117,7 +128,7 @@ def run(tier: str) -> int:
                     continue
                 if not close(afb.delta, want):
                     where = "zero" if c["n"] == 0 else ("reference" if c["n"] == 1 else "large")
-                    rep.violation(f"curve:{c['fn']}:{scheme}:{where}", f"{scheme}/{c['fn']}: variance = {c['n']} x reference, bounds [{lo},{hi}]e-2: delta = {np.asarray(afb.delta).ravel()[:3]}, expected {want}", {"case": c, "lo": lo, "hi": hi})
+                    rep.violation(f"curve:{c['fn']}:{scheme}:{where}" + ("" if ref == REF else ":large-reference"), f"{scheme}/{c['fn']}: reference variance {ref}, variance = {c['n']} x reference, bounds [{lo},{hi}]e-2: delta = {np.asarray(afb.delta).ravel()[:3]}, expected {want}", {"case": c, "lo": lo, "hi": hi})
     # ---- histories ------------------------------------------------------------------------------------
     ncase = 0
     for row in rows:
